@@ -141,8 +141,20 @@ pub fn build_universe(cfg: &Value) -> Rc<Universe> {
                 continue;
             }
             for f in 1..=fpmax {
-                let k = by_class[&(f, 0)][0];
-                let i2 = learn2(b, nb, l, &bh, k, 0);
+                // the alternate bucket of class <<f, 0>>, read off the simple paths only (one insert into a fresh
+                // filter, one query): the bucket a != 0 such that a filter holding only a key of class <<f, a>>
+                // reports the key of class <<f, 0>>; none: the class has a single candidate bucket.  (Filling a
+                // bucket and watching where the next copy lands would run through the eviction path.)
+                let k0 = by_class[&(f, 0)][0];
+                let mut i2 = 0;
+                for a in 1..nb {
+                    let mut flt = fresh(b, nb, l, &bh);
+                    let _ = flt.insert(&by_class[&(f, a)][0]);
+                    if flt.query(&k0) {
+                        i2 = a;
+                        break;
+                    }
+                }
                 if i2 != want[(f - 1) as usize] {
                     continue 'seed;
                 }
